@@ -52,8 +52,14 @@ GenericV(e, p, ln) == IF e.gacc # p.ok THEN {<<"GenericAgrees", {IF e.gacc THEN 
 \* "the consensus/sync message handlers built on it reject rather than crash"; and what such an entry point accepts
 \* from the network or from a transaction is "a byte string accepted as a ... consensus payload, vote container, staking
 \* message": it must be the encoding of a value (the second sentence of the property, AcceptImpliesCanonical)
+\* When the entry point was handed an outer message (x.oty, x.ob: a signed consensus message, a staking message, a
+\* log-data record built around the case and followed by junk) it is judged on that WHOLE input.
 EntryV(e, s, p, x, ln) ==
    IF x.pan # "" THEN {<<"RejectNotCrash", {x.pt, "panic"}, ln>>}
+   ELSE IF x.oty # "" THEN
+        (IF ~x.err /\ ~TypedCanonical(Schema(x.oty), x.ob)
+         THEN {<<"AcceptImpliesCanonical", {x.pt, "outer", x.oty, IF Canonical(x.ob) THEN "schema_mismatch" ELSE "noncanonical_rlp"}, ln>>}
+         ELSE {})
    ELSE IF ~x.err /\ x.pt \notin DiskEntry /\ ~(p.ok /\ Match(s, p.it, TRUE))
         THEN {<<"AcceptImpliesCanonical", {x.pt} \cup (Class(e.ty, s, p) \ {"reencoding_differs"}), ln>>}
         ELSE {}
